@@ -88,6 +88,8 @@ def one():
 
 def fieldinverse(val):
     calls["fieldinverse"] += 1
+    if val % modulus == 0:
+        raise ZeroDivisionError("no inverse exists")     # the class every real backend raises (pysnark.gmpy.invert)
     return pow(val, -1, modulus)
 
 
